@@ -386,7 +386,7 @@ where
         if let Some(r) = slot.lock().unwrap().take() {
             return r;
         }
-        if start.elapsed().as_secs() > 20 {
+        if start.elapsed().as_secs() > 90 {
             return Err("read never answered".into());
         }
     }
